@@ -553,6 +553,21 @@ func enumerate(thorough bool) []CaseSpec {
 		add(cs)
 	}
 
+	// (b3') dynamic opcodes that come into being LATE: names no earlier case uses, so the opcode is first created when
+	// this case builds its machine — after the process has loaded hundreds of machines (every other dynamic
+	// opcode is registered by the fresh-process prefetch before the first load happens)
+	for _, g := range [][]string{{"rsets24"}, {"pull6lt", "push6lt"}, {"calla6lt", "callo6lt", "ret6lt"}, {"addfps12f6", "divfps12f6", "multfps12f6"}} {
+		ops := append(append([]string{}, baseOps...), g...)
+		rs := uint8(8)
+		if strings.HasPrefix(g[0], "addfps") {
+			rs = 16
+		}
+		if g[0] == "rsets24" {
+			rs = 32
+		}
+		add(single("dynamic-late", strings.Join(g, "+")+"/created-after-other-machines-were-loaded", withVariant(ops, rs, variant{"ha", 0, 0, true})))
+	}
+
 	// (b4) shared objects
 	for _, kind := range soKinds() {
 		ops := append(append([]string{}, baseOps...), soOps[kind]...)
